@@ -55,7 +55,9 @@ def generate(seed, tier):
     prefixes = list(PREFIXES)
     g.shuffle(prefixes)
     prefixes = prefixes[: g.randint(2, 6)]
-    iris = sorted({ns + loc for ns in nss for loc in g.sample(LOCALS, 3)})[:18]
+    iris = sorted({ns + loc for ns in nss for loc in g.sample(LOCALS, 3)} | {nss[0] + "1n", nss[-1] + "2024report"})[:20]
+    # namespaces that only the *strict* split of such IRIs produces (local name must start with a letter): bindable too
+    nss = nss + [nss[0] + "1", nss[-1] + "2024"]
     nh = g.randint(1, 3)
     cfg = {"store": g.choice(["memory", "memory", "simple"]), "handles": [g.choice(["none", "core", "rdflib", "core"]) for _ in range(nh)], "iris": iris, "nss": nss}
     w = {"bind": g.choice([2, 4, 6]), "qname": g.choice([2, 4, 8]), "parse": g.choice([0, 1]), "serialize": g.choice([0, 1]), "expand": 1, "reset": g.choice([0, 0, 1]), "storebind": g.choice([0, 0, 1])}
